@@ -6,6 +6,7 @@ import (
 	"math/big"
 	"math/rand"
 
+	"github.com/kardiachain/go-kardia/configs"
 	"github.com/kardiachain/go-kardia/lib/common"
 	"github.com/kardiachain/go-kardia/lib/crypto"
 	"github.com/kardiachain/go-kardia/lib/rlp"
@@ -43,21 +44,41 @@ func (s signerSpec) kind() string {
 	return "ChainIDSigner"
 }
 
+// real builds the signer through one of the public constructors the node uses:
+// NewChainIDSigner / HomesteadSigner{} directly, LatestSignerForChainID (keystore, api),
+// MakeSigner (state processor, receipts) and LatestSigner (tx pool, block constructor).
 func (s signerSpec) real() types.Signer {
+	zero, late := uint64(0), uint64(1000)
 	switch s.Kind {
-	case skHomestead:
-		return types.HomesteadSigner{}
 	case skFrontier:
 		return types.FrontierSigner{}
+	case skHomestead:
+		switch s.Via % 4 {
+		case 1:
+			return types.LatestSignerForChainID(nil)
+		case 2: // before the Galaxias fork
+			return types.MakeSigner(&configs.ChainConfig{ChainID: big.NewInt(24), GalaxiasBlock: &late}, &zero)
+		case 3: // no chain id configured
+			return types.LatestSigner(&configs.ChainConfig{GalaxiasBlock: &zero})
+		}
+		return types.HomesteadSigner{}
 	}
-	// the two constructors the node uses (MakeSigner/LatestSigner -> NewChainIDSigner, api -> LatestSignerForChainID)
-	return types.NewChainIDSigner(new(big.Int).Set(s.Chain))
+	c := new(big.Int).Set(s.Chain)
+	switch s.Via % 4 {
+	case 1:
+		return types.LatestSignerForChainID(c)
+	case 2:
+		return types.MakeSigner(&configs.ChainConfig{ChainID: c, GalaxiasBlock: &zero}, &late)
+	case 3:
+		return types.LatestSigner(&configs.ChainConfig{ChainID: c, GalaxiasBlock: &zero})
+	}
+	return types.NewChainIDSigner(c)
 }
 
 func allSignerSpecs() []signerSpec {
 	o := []signerSpec{{Kind: skHomestead}, {Kind: skFrontier}}
 	for _, c := range txChains {
-		o = append(o, signerSpec{skChainID, c})
+		o = append(o, signerSpec{Kind: skChainID, Chain: c})
 	}
 	return o
 }
@@ -304,9 +325,9 @@ func signersFor(r *rand.Rand, orig signerSpec, extra *big.Int, all bool) []signe
 		o = append(o, signerSpec{Kind: skFrontier})
 	}
 	if extra != nil {
-		o = append(o, signerSpec{skChainID, extra})
+		o = append(o, signerSpec{Kind: skChainID, Chain: extra})
 	}
-	o = append(o, signerSpec{skChainID, txChains[r.Intn(len(txChains))]})
+	o = append(o, signerSpec{Kind: skChainID, Chain: txChains[r.Intn(len(txChains))]})
 	return o
 }
 
@@ -489,7 +510,7 @@ func judgeTx(c *core.Case, r *rand.Rand, f txF, sg signerSpec, k *keyT, allSigne
 			}
 		}
 	}
-	if c.I < 3 {
+	if c.Group == "corpus-tx" && c.I == 3 {
 		run.Sample(map[string]interface{}{"kind": "transaction", "group": c.Group, "case": c.I, "signer": sg.String(), "key": k.i, "tx": txW(f, v, rr, ss), "mutations_tried": len(muts)})
 	}
 }
